@@ -20,7 +20,9 @@ SCRATCH = os.path.join(os.path.dirname(BUILD_ROOT.rstrip("/")), "scratch-c04") i
 
 
 def answer(line, mode):
-    return line if mode == "echo" else b"<" + line.upper() + b">"
+    if mode == "echo":
+        return line
+    return b"<" + line.upper() + b">" + (b"\r" if mode.endswith("+cr") else b"")
 
 
 def key_of(line, kspec, sep):
@@ -37,7 +39,7 @@ def key_of(line, kspec, sep):
             b = int(b) if b else len(fields)
             sel += fields[a - 1:b]
         else:
-            sel.append(fields[int(part) - 1])
+            sel += fields[int(part) - 1:int(part)]
     return sep.join(sel) if False else tuple(sel)
 
 
@@ -63,6 +65,14 @@ def gen_cases(c):
             n = rng.randrange(1, 40)
             lines = [sep.join(rng.choice([b"p", b"q", b"r", b"", b"long" * 5]) for _ in range(3)) + sep + b"tail%d" % rng.randrange(1000) for _ in range(n)]
             cases.append((kspec, sep, lines))
+    # ragged lines: fewer / exactly / more fields than the end of the key range (no empty fields, no
+    # trailing separator: those corner cases are C10's); the cut key is the tuple of the selected fields present
+    for kspec, sep in (("1-3", b","), ("2-3", b","), ("1-3", b"\t"), ("2-", b","), ("1,3", b",")):
+        cases.append((kspec, sep, [sep.join(x) for x in ([b"a", b"x"], [b"b", b"x"], [b"d", b"y", b"2"], [b"d", b"y", b"2", b"zzz"],
+                                                          [b"d", b"y"], [b"d", b"y", b"2"], [b"q"], [b"q", b"r"], [b"q"], [b"a", b"x"])]))
+        for _ in range(4 if q else 30):
+            n = rng.randrange(2, 40)
+            cases.append((kspec, sep, [sep.join(rng.choice([b"p", b"q", b"r", b"ss"]) for _ in range(rng.randrange(1, 6))) for _ in range(n)]))
     # beyond the flush interval (4096 sends), beyond pipe capacity, very long lines
     cases.append((None, None, [b"u%d" % i for i in range(9000)]))
     cases.append((None, None, [b"v%d" % (i % 700) for i in range(12000)]))
@@ -71,7 +81,7 @@ def gen_cases(c):
     return cases
 
 
-def run_cache(exe, args, data, child_args, timeout):
+def run_cache(exe, args, data, child_args, timeout, stages=None):
     os.makedirs(SCRATCH, exist_ok=True)
     tf = tempfile.NamedTemporaryFile(dir=SCRATCH, prefix="trace-", delete=False)
     lf = tempfile.NamedTemporaryFile(dir=SCRATCH, prefix="log-", delete=False)
@@ -82,7 +92,28 @@ def run_cache(exe, args, data, child_args, timeout):
         p = subprocess.Popen([exe] + args + [CHILD] + child_args + ["--log", lf.name], stdin=subprocess.PIPE, stdout=subprocess.PIPE,
                              stderr=subprocess.PIPE, env=env, pass_fds=(tf.fileno(),), start_new_session=True)
         try:
-            out, err = p.communicate(data, timeout=timeout)
+            if stages:
+                import threading
+                import time
+
+                def feed():
+                    try:
+                        for k, chunk in enumerate(stages):
+                            if k:
+                                time.sleep(0.6)
+                            p.stdin.write(chunk)
+                            p.stdin.flush()
+                        p.stdin.close()
+                    except Exception:
+                        pass
+                th = threading.Thread(target=feed)
+                th.start()
+                out = p.stdout.read()
+                err = p.stderr.read()
+                p.wait(timeout=timeout)
+                th.join()
+            else:
+                out, err = p.communicate(data, timeout=timeout)
             status = p.returncode
         except subprocess.TimeoutExpired:
             import signal
@@ -126,17 +157,41 @@ def main(argv):
             if sep != b"\t":
                 args += ["-t", sep.decode()]
         jobs.append((args, kspec, sep, lines, mode, code))
-    # a few CR cases (open known finding: CR before the newline is stripped by both readers)
+    # carriage returns in front of the newline, in the input and in the child's answers (finding F11, fixed)
     jobs.append(([], None, None, [b"a\r", b"b"], "echo", 0))
     jobs.append(([], None, None, [b"a\r", b"a"], "eager", 0))
+    jobs.append(([], None, None, [b"a\r", b"a", b"\r", b"", b"a\r"], "block:7+cr", 0))
+    jobs.append(([], None, None, [b"x", b"y\r\r", b"x"], "eager+cr", 0))
+    for _ in range(6):
+        jobs.append(([], None, None, [c.rng.choice([b"p", b"p\r", b"\r", b"q\rq", b""]) for _ in range(c.rng.randrange(1, 30))],
+                     c.rng.choice(["echo", "eager+cr", "readall+cr", "stdio"]), 0))
 
-    def do(job):
+    # one first-occurrence line longer than both pipes with the byte-copying child (the enqueue-after-write deadlock)
+    jobs.append(([], None, None, [b"a", b"L" * 300000, b"a"], "echo", 0))
+    # collector catching up with the feeder exactly at a multiple of the queue's 1023-entry page while more
+    # input is still to come: > 4096 distinct lines (periodic flush), duplicates up to k*1023 lines, a stall, the rest
+    staged = {}
+    for k in (5, 6):
+        first = [b"s%d" % i for i in range(4096)] + [b"s%d" % (i % 50) for i in range(k * 1023 - 4096)]
+        rest = [b"t%d" % (i % 30) for i in range(200)]
+        staged[len(jobs)] = len(first)
+        jobs.append(([], None, None, first + rest, "eager", 0))
+
+    def do(ij):
+        i, job = ij
         args, kspec, sep, lines, mode, code = job
         data = b"".join(l + b"\n" for l in lines)
-        return run_cache(repo_bin("cache"), args, data, [mode, "--exit", str(code)], 20 if c.tier == "quick" else 120)
+        stages = None
+        if i in staged:
+            cut = staged[i]
+            stages = [b"".join(l + b"\n" for l in lines[:cut]), b"".join(l + b"\n" for l in lines[cut:])]
+        try:
+            return run_cache(repo_bin("cache"), args, data, [mode, "--exit", str(code)], 20 if c.tier == "quick" else 120, stages=stages)
+        except subprocess.TimeoutExpired:
+            return "timeout", b"", b"", "", b""
 
     with ThreadPoolExecutor(max_workers=6) as ex:
-        results = list(ex.map(do, jobs))
+        results = list(ex.map(do, list(enumerate(jobs))))
     mlines, mjobs = [], []
     for job, (status, out, log_data, trace, err) in zip(jobs, results):
         args, kspec, sep, lines, mode, code = job
@@ -173,13 +228,13 @@ def main(argv):
         if status != code:
             c.violation("status: cache exited with %s, child exited with %d" % (status, code), desc)
         # ---- model: same key ids, same lines
-        if drv is not None and len(lines) <= 3000 and not has_cr:
+        if drv is not None and len(lines) <= 3000:
             ids = {}
             items = []
             for l, k in zip(lines, keys):
                 ids.setdefault(k, len(ids))
                 items.append("%d:%s" % (ids[k], hexs(l)))
-            mlines.append("R %s %s" % ("e" if mode == "echo" else "u", " ".join(items)))
+            mlines.append("R %s %s" % ("e" if mode == "echo" else ("c" if mode.endswith("+cr") else "u"), " ".join(items)))
             mjobs.append((job, out, log_data, trace))
     if drv is not None and mlines:
         rc, mout, merr = run_lines(drv, mlines, timeout=600)
